@@ -1,4 +1,5 @@
 import Heathcliff.Proofs.C01E
+import Heathcliff.Proofs.C01L
 import Heathcliff.Proofs.C01Q
 import Heathcliff.Proofs.C01P
 import Heathcliff.Proofs.C01O
@@ -311,5 +312,97 @@ theorem expandSeed_toSeeded : type_of% @HC.expandSeed_toSeeded := @HC.expandSeed
 /-- the modulus switch inside public-key encryption (special-prime / lower-level path) IS `modSwitchScaleNext` of the previous level
     (BFV, CKKS): C05's `modSwitchScaleNext_bfv_spec` / `_ckks_spec` and their phase consequences apply to it -/
 theorem encDivideQLast_eq_modSwitch : type_of% @HC.encDivideQLast_eq_modSwitch := @HC.encDivideQLast_eq_modSwitch
+
+/-! ### ENCRYPTION, completed (Proofs/C01F … C01L; concrete satisfiable instances of every hypothesis bundle: Proofs/C01LW.lean).
+    `FreshZero l sk r ν`: the computation `r` yields a canonical size-2 ciphertext in the scheme's form with correction factor 1 whose exact
+    phase is tt·ν modulo Q (tt = t for BGV, 1 otherwise).  Every branch of the level dispatch `encryptZeroInternal` is covered:
+    public key without previous level (`_fresh_pk`), secret key / seeded (`_fresh_sk`), public key through the previous level
+    (`_fresh_pk_prev`: special-prime path and lower levels) — each for BFV, CKKS and BGV. -/
+
+/-- F1 (public key, NTT form — CKKS, BGV): coefficient form of polynomial k = (intt(pk_k) ⋆ u + tt·e_k) mod q_i in every component -/
+theorem encryptZeroAsym_ntt : type_of% @HC.encryptZeroAsym_ntt := @HC.encryptZeroAsym_ntt
+
+/-- F1' (secret key, NTT form; also the public key of every scheme): c1 = a, coefficient form of c0 = −(intt(a) ⋆ s + tt·e) mod q_i -/
+theorem encryptZeroSym_ntt : type_of% @HC.encryptZeroSym_ntt := @HC.encryptZeroSym_ntt
+
+/-- KEY GENERATION: the stored secret key made from the ternary sample is `skNtt` of the signed coefficients -/
+theorem genSecretKey_eq_skNtt : type_of% @HC.genSecretKey_eq_skNtt := @HC.genSecretKey_eq_skNtt
+
+/-- KEY GENERATION: `PkRel` is a THEOREM about the model's `genPublicKey` (= `KeyGenerator::create_public_key`, compared bit for bit on
+    `keygen_op` lines): for every secret, mask and error polynomial the generated key is an encryption of zero with error tt·e -/
+theorem genPublicKey_pkRel : type_of% @HC.genPublicKey_pkRel := @HC.genPublicKey_pkRel
+
+/-- … and the relation of the key level holds at every level below it -/
+theorem pkRel_lower : type_of% @HC.PkRel.lower := @HC.PkRel.lower
+
+/-- ‖tt·e‖ ≤ tt·21 -/
+theorem genPublicKey_error_bound : type_of% @HC.genPublicKey_error_bound := @HC.genPublicKey_error_bound
+
+/-- phase of two polynomials whose residues are congruent to integer lifts -/
+theorem phase_of_lift : type_of% @HC.c01g_phase_of_lift := @HC.c01g_phase_of_lift
+
+/-- adding M to c0 adds M to the exact phase -/
+theorem phase_add_c0 : type_of% @HC.c01g_phase_add_c0 := @HC.c01g_phase_add_c0
+
+/-- ‖−e_pk⋆u + e0 + e1⋆s‖ ≤ 21(2N+1) -/
+theorem pkNoise_bound : type_of% @HC.pkNoise_bound := @HC.pkNoise_bound
+
+/-- `encryptZeroAsym` in the scheme's own form (all three schemes) is a fresh encryption of zero with noise `pkNoise` -/
+theorem encryptZeroAsym_fresh : type_of% @HC.encryptZeroAsym_fresh := @HC.encryptZeroAsym_fresh
+
+/-- `encryptZeroSym` in the scheme's own form (all three schemes, both seed variants): noise −e -/
+theorem encryptZeroSym_fresh : type_of% @HC.encryptZeroSym_fresh := @HC.encryptZeroSym_fresh
+
+/-- DISPATCH branch: public key, level without a previous level -/
+theorem encryptZeroInternal_fresh_pk : type_of% @HC.encryptZeroInternal_fresh_pk := @HC.encryptZeroInternal_fresh_pk
+
+/-- DISPATCH branch: secret key / seed-compressed, every level -/
+theorem encryptZeroInternal_fresh_sk : type_of% @HC.encryptZeroInternal_fresh_sk := @HC.encryptZeroInternal_fresh_sk
+
+/-- THE DIVISION STEP (`encDivideQLast`) maps a fresh zero at the previous level to a fresh zero at the level: q_L·ν' = ν + ρ,
+    2‖ρ‖∞ ≤ slack·q_L·(1+‖s‖₁) (slack 1: BFV / CKKS rounding; 2: BGV t-compatible division) -/
+theorem encDivideQLast_fresh : type_of% @HC.encDivideQLast_fresh := @HC.encDivideQLast_fresh
+
+/-- DISPATCH branch: public key THROUGH THE PREVIOUS LEVEL (special-prime path of the first level, every lower level) -/
+theorem encryptZeroInternal_fresh_pk_prev : type_of% @HC.encryptZeroInternal_fresh_pk_prev := @HC.encryptZeroInternal_fresh_pk_prev
+
+/-- … with the standard bounds: ‖ν'‖∞ ≤ ⌊(2·21(2N+1) + slack·q_L(1+N)) / (2 q_L)⌋ -/
+theorem encryptZeroInternal_fresh_pk_prev_bounded : type_of% @HC.encryptZeroInternal_fresh_pk_prev_bounded :=
+  @HC.encryptZeroInternal_fresh_pk_prev_bounded
+
+theorem spBound_le : type_of% @HC.spBound_le := @HC.spBound_le
+
+/-- BFV on ANY fresh zero (any mode, any dispatch branch): decrypt ∘ encrypt = id under `FreshEncOK l B` -/
+theorem bfv_encrypt_decrypt_of_fresh : type_of% @HC.bfv_encrypt_decrypt_of_fresh := @HC.bfv_encrypt_decrypt_of_fresh
+
+/-- END TO END, BFV, PUBLIC KEY THROUGH THE SPECIAL PRIME (the default) with the explicit rounding term in the margin -/
+theorem bfv_encrypt_decrypt_pk_sp : type_of% @HC.bfv_encrypt_decrypt_pk_sp := @HC.bfv_encrypt_decrypt_pk_sp
+
+/-- BGV plaintext lift, fast path: ≡ centred lift of m modulo every q_i, canonical -/
+theorem bgvLiftPlain_fast_spec : type_of% @HC.bgvLiftPlain_fast_spec := @HC.bgvLiftPlain_fast_spec
+
+/-- BGV plaintext lift, multi-word path (`add_uint_u64` + `decompose_array`) -/
+theorem bgvLiftPlain_multiword_spec : type_of% @HC.bgvLiftPlain_multiword_spec := @HC.bgvLiftPlain_multiword_spec
+
+theorem bgvLiftPlain_spec : type_of% @HC.bgvLiftPlain_spec := @HC.bgvLiftPlain_spec
+
+/-- a phase ≡ lift(m) + t·v, ‖v‖ ≤ B, 2t(B+1) < Q, is decrypted by the model (NTT form, cf = 1) to the padded plaintext -/
+theorem bgv_decrypt_of_phase : type_of% @HC.c01i_bgv_decrypt_of_phase := @HC.c01i_bgv_decrypt_of_phase
+
+/-- BGV on ANY fresh zero: decrypt ∘ encrypt = id, correction factor 1, under `FreshEncOKBgv l B` -/
+theorem bgv_encrypt_decrypt_of_fresh : type_of% @HC.bgv_encrypt_decrypt_of_fresh := @HC.bgv_encrypt_decrypt_of_fresh
+
+/-- END TO END, BGV: public key / secret key + seeded / public key through the special prime -/
+theorem bgv_encrypt_decrypt_pk : type_of% @HC.bgv_encrypt_decrypt_pk := @HC.bgv_encrypt_decrypt_pk
+theorem bgv_encrypt_decrypt_sk : type_of% @HC.bgv_encrypt_decrypt_sk := @HC.bgv_encrypt_decrypt_sk
+theorem bgv_encrypt_decrypt_pk_sp : type_of% @HC.bgv_encrypt_decrypt_pk_sp := @HC.bgv_encrypt_decrypt_pk_sp
+
+/-- CKKS on ANY fresh zero: decrypted RNS plaintext = plaintext + ONE integer noise vector ν in every RNS component -/
+theorem ckks_encrypt_decrypt_of_fresh : type_of% @HC.ckks_encrypt_decrypt_of_fresh := @HC.ckks_encrypt_decrypt_of_fresh
+
+/-- CKKS STATEMENT per mode, with the fresh bound on ‖ν‖∞ -/
+theorem ckks_encrypt_decrypt_pk : type_of% @HC.ckks_encrypt_decrypt_pk := @HC.ckks_encrypt_decrypt_pk
+theorem ckks_encrypt_decrypt_sk : type_of% @HC.ckks_encrypt_decrypt_sk := @HC.ckks_encrypt_decrypt_sk
+theorem ckks_encrypt_decrypt_pk_sp : type_of% @HC.ckks_encrypt_decrypt_pk_sp := @HC.ckks_encrypt_decrypt_pk_sp
 
 end HC.C01
